@@ -66,6 +66,7 @@ func TestC01(t *testing.T) {
 		records []string
 		outs    []string
 		log     []string
+		deadCtx bool
 	}
 	var lines []string
 	var owners []int // index into runs for each oracle line
@@ -76,7 +77,7 @@ func TestC01(t *testing.T) {
 		if r.Stuck != "" {
 			res.Violatef("server run did not finish: "+r.Stuck, in, "log: %s", shortLog(r.Log))
 		}
-		p := pending{in: in, log: r.Log}
+		p := pending{in: in, log: r.Log, deadCtx: sc.DeadCtxAt > 0}
 		starts, finishes := map[string]int{}, map[string]int{}
 		finishedAt := map[string]int{}
 		multi := false
@@ -109,13 +110,23 @@ func TestC01(t *testing.T) {
 				}
 			}
 		}
-		// handler-once for every runnable member
+		// handler-once for every runnable member (with ServerOptions.NewContext handing out one base
+		// context that has already ended, the member that got it is never invoked: a call is answered
+		// with the context's error, a notification is dropped - at most one member per run)
+		deadLeft := 0
+		if sc.DeadCtxAt > 0 {
+			deadLeft = 1
+		}
 		for _, rec := range p.records {
 			ms := c07Members(rec)
 			run := 0
 			for _, m := range ms {
 				if m.Tag != "" && (m.Method == "m") && validMember(rec, m.Tag) {
 					run++
+					if starts[m.Tag] == 0 && finishes[m.Tag] == 0 && deadLeft > 0 {
+						deadLeft--
+						continue
+					}
 					if starts[m.Tag] != 1 || finishes[m.Tag] != 1 {
 						res.Violatef(fmt.Sprintf("handler of a valid member ran %d times", starts[m.Tag]), in, "member %s; log: %s", m.Tag, shortLog(r.Log))
 					}
@@ -144,6 +155,9 @@ func TestC01(t *testing.T) {
 	} else {
 		for i := 0; i < pick(250, 2500); i++ {
 			sc := &srvScenario{Concurrency: 1 + rng.Intn(4)}
+			if rng.Intn(4) == 0 { // the non-default NewContext option: one request's base context has already ended
+				sc.DeadCtxAt = 1 + rng.Intn(5)
+			}
 			uid := 0
 			for k := 1 + rng.Intn(5); k > 0; k-- {
 				sc.Ops = append(sc.Ops, envOp{Kind: "send", Arg: c01Record(rng, &uid)})
@@ -209,7 +223,7 @@ func TestC01(t *testing.T) {
 		for _, w := range want {
 			found := false
 			for j, g := range got {
-				if !used[j] && c01ReplyMatches(w, g) {
+				if !used[j] && c01ReplyMatches(w, g, p.deadCtx) {
 					used[j] = true
 					found = true
 					break
@@ -230,7 +244,7 @@ func TestC01(t *testing.T) {
 }
 
 // c01ReplyMatches: same shape, same ids in order; a model `r` entry may be the handler's own error.
-func c01ReplyMatches(model, impl string) bool {
+func c01ReplyMatches(model, impl string, deadCtx bool) bool {
 	fm, fi := strings.Fields(model), strings.Fields(impl)
 	if len(fm) != len(fi) || fm[1] != fi[1] {
 		return false
@@ -240,7 +254,7 @@ func c01ReplyMatches(model, impl string) bool {
 			return false
 		}
 		if fm[i+1] == "r" {
-			if fi[i+1] != "r" && fi[i+1] != "-32098" && fi[i+1] != "7" {
+			if fi[i+1] != "r" && fi[i+1] != "-32098" && fi[i+1] != "7" && !(deadCtx && fi[i+1] == "-32097") {
 				return false
 			}
 			continue
